@@ -65,6 +65,11 @@ CLAIMED = {
  'C18': C('who-may-call census incl. fn-item references, name provenance, precedence by edge-restricted reachability, single-conversion join',
    'Decides: std::env is used only at the listed sites with names from the declared env list; the flag/argument consumers consult the command line on every path and the environment only on '
    'the absent edge; env and command-line values share the one parse_os_str conversion; both-absent exits build Missing/NoEnv which are catchable. Does NOT decide wrapper behaviour (C06).', 'DESIGN.md section 5 C18'),
+ 'C20': C('differential MIR between feature configurations (span-aligned statement multisets) + abstract evaluation under the assumption "completion is off" + inertness summaries of the completion family',
+   'Decides: every analysed configuration builds; batteries/docgen(/derive) only add items (listed carried-data sites); colour features differ only at print-only sites and at render_console push sites that '
+   'correspond one-to-one to Color::push_str, whose Monochrome arm is a verbatim push_str; every autocomplete-only statement that is live with completion off is a family call, a pure call or a write to an '
+   'autocomplete-only local (nothing autocomplete-only writes the result, the State or a shared local); each family member returns a constant and writes only `comp` when completion is off; check_next is inert '
+   'without the marker; cfg(not) arms agree with the feature arm under the assumption (fixed a3af15e, efd14f3). Trusted: the analyser summaries.', 'DESIGN.md section 5 C20'),
 }
 
 NA_REASON = {
